@@ -32,7 +32,7 @@ func isKnownFinding(verif, prop, name string) bool {
 }
 
 // obligation classes that decide a property (default: all classes)
-var propClasses = map[string][]string{"C15": {"PROT", "LOCK", "THREAD"}}
+var propClasses = map[string][]string{"C15": {"PROT", "LOCK", "THREAD", "WG"}}
 
 type KnownFindings struct {
 	Findings []KnownFinding `json:"findings"`
@@ -245,8 +245,9 @@ func cmdCheck(args []string) {
 			a := append([]string{"worker", "-timeout", strconv.Itoa(timeout), "-out", out, "-repo", *repo}, b...)
 			cmd := exec.Command(self, a...)
 			cmd.Stderr = os.Stderr
+			cmd.Env = append(os.Environ(), "GOVC_PROP="+*prop)
 			if cls, ok := propClasses[*prop]; ok {
-				cmd.Env = append(os.Environ(), "GOVC_CLASSES="+strings.Join(cls, ","))
+				cmd.Env = append(cmd.Env, "GOVC_CLASSES="+strings.Join(cls, ","))
 			}
 			err := cmd.Run()
 			var rs []*FnResult
@@ -289,7 +290,7 @@ func cmdCheck(args []string) {
 			a := append([]string{"worker", "-timeout", strconv.Itoa(timeout), "-out", out, "-repo", *repo}, again...)
 			cmd := exec.Command(self, a...)
 			cmd.Stderr = os.Stderr
-			cmd.Env = append(os.Environ(), "GOVC_NO_LASTRESORT=1", "GOVC_NO_REPLAY=1")
+			cmd.Env = append(os.Environ(), "GOVC_NO_LASTRESORT=1", "GOVC_NO_REPLAY=1", "GOVC_PROP="+*prop)
 			if cls, ok := propClasses[*prop]; ok {
 				cmd.Env = append(cmd.Env, "GOVC_CLASSES="+strings.Join(cls, ","))
 			}
